@@ -656,3 +656,115 @@ def innermost_loop(body, block):
         if lp and block in lp and b in lp and (best is None or len(lp) < len(best)):
             best = lp
     return best or set()
+
+
+def bool_states_from(body, start, init=None, max_iter=4000):
+    """Forward constant propagation of bool locals from block `start` (entered with the facts `init`:
+    {local: True/False}), with branch refinement: a switch on a bool local whose value is known follows
+    only the feasible arm, and on each arm the local's value is learnt.  Values: True / False / None
+    (unknown).  Join at merge points is pointwise (different -> unknown).  Returns
+    {return block: value of _0 there} for the return blocks reachable from `start`."""
+    from .model import op_place, is_bare
+    UNK = None
+
+    def val(o, st):
+        p = op_place(o)
+        if p is not None:
+            return st.get(p, UNK) if is_bare(p) else UNK
+        v = o.get("v") if isinstance(o, dict) else None
+        if v == "1":
+            return True
+        if v == "0":
+            return False
+        return UNK
+
+    def transfer(bi, st):
+        st = dict(st)
+        for s in body.stmts(bi):
+            d = s.get("d")
+            if not is_bare(d):
+                continue
+            r = s.get("r")
+            if r == "use":
+                st[d] = val(s["o"][0], st)
+            elif r == "bin" and s.get("op") in ("BitOr", "BitAnd") and len(s.get("o", [])) == 2:
+                a, c = val(s["o"][0], st), val(s["o"][1], st)
+                if s["op"] == "BitOr":
+                    st[d] = True if (a is True or c is True) else (False if (a is False and c is False) else UNK)
+                else:
+                    st[d] = False if (a is False or c is False) else (True if (a is True and c is True) else UNK)
+            elif r == "un" and s.get("op") == "Not":
+                a = val(s["o"][0], st)
+                st[d] = (not a) if a is not None else UNK
+            else:
+                st[d] = UNK
+        return st
+
+    def join(a, b):
+        return {k: a[k] for k in a if k in b and a[k] == b[k] and a[k] is not None}
+    # disjunctive (trace-partitioned) domain: a set of states per block, capped
+    CAP = 48
+    IN = {start: {frozenset((init or {}).items())}}
+    work = [(start, frozenset((init or {}).items()))]
+    n = 0
+    while work and n < max_iter:
+        n += 1
+        bi, fst = work.pop()
+        st = transfer(bi, dict(fst))
+        t = body.term(bi)
+        outs = []
+        if t["k"] == "switch":
+            p = op_place(t["on"])
+            known = st.get(p, UNK) if p is not None and is_bare(p) else UNK
+            is_bool = p is not None and is_bare(p) and body.local_ty_str(p) == "bool"
+            arms = [(v, tg) for v, tg in t["vals"]] + [("else", t.get("else"))]
+            listed = {v for v, _ in t["vals"]}
+            for v, tg in arms:
+                if tg is None:
+                    continue
+                if is_bool:
+                    armval = (v == "1") if v != "else" else (False if "1" in listed else True)
+                    if known is not None and known != armval:
+                        continue
+                    s2 = dict(st)
+                    s2[p] = armval
+                    outs.append((tg, s2))
+                else:
+                    outs.append((tg, st))
+        elif t["k"] in ("call", "tailcall"):
+            d = t.get("dest")
+            s2 = dict(st)
+            if d is not None and is_bare(d):
+                s2.pop(d, None)
+            if t.get("to") is not None:
+                outs.append((t["to"], s2))
+        else:
+            for sx in body.succ(bi):
+                if not body.is_cleanup(sx):
+                    outs.append((sx, st))
+        for tg, s2 in outs:
+            if body.is_cleanup(tg):
+                continue
+            f2 = frozenset((k, v) for k, v in s2.items() if v is not None)
+            cur = IN.setdefault(tg, set())
+            if f2 in cur:
+                continue
+            if len(cur) >= CAP:
+                # fall back to one joined state
+                j = dict(f2)
+                for o in cur:
+                    j = join(j, dict(o))
+                fj = frozenset(j.items())
+                if fj in cur:
+                    continue
+                cur.add(fj)
+                work.append((tg, fj))
+            else:
+                cur.add(f2)
+                work.append((tg, f2))
+    out = {}
+    for rb in body.return_blocks():
+        if rb in IN:
+            vals = {transfer(rb, dict(f)).get(0, UNK) for f in IN[rb]}
+            out[rb] = True if vals == {True} else (False if vals == {False} else UNK)
+    return out
